@@ -1,6 +1,7 @@
 package dval
 
 import (
+	"encoding/json"
 	"fmt"
 	"math"
 	"math/big"
@@ -13,7 +14,7 @@ import (
 )
 
 // SourceKinds are the Go kinds a caller may hand to val.Conv.
-var SourceKinds = []string{"int8", "int16", "int32", "int64", "int", "uint8", "uint16", "uint32", "uint64", "uint", "float32", "float64", "string"}
+var SourceKinds = []string{"int8", "int16", "int32", "int64", "int", "uint8", "uint16", "uint32", "uint64", "uint", "float32", "float64", "string", "jsonnumber"}
 
 // StringForms are lexical variants of a numeric string; only "plain" is an
 // exact, unambiguous denotation.
@@ -85,6 +86,11 @@ func MkSource(kind, p, form string) (any, bool) {
 		f, exact := r.Float32()
 		if exact {
 			return f, true
+		}
+	case "jsonnumber":
+		// what the JSON reader hands over for a number in a document (decoder.UseNumber)
+		if form == "" || form == "plain" {
+			return json.Number(p), true
 		}
 	case "string":
 		switch form {
